@@ -199,6 +199,11 @@ def run(ctx, R):
                        for x in n.targets) and prog.dotted(
                            fw.module, n.value, fw) ==
                'placement.util.json_error_formatter'] if hs else []
+        # ... or handed to the constructor (json_formatter=...)
+        fmt += [m for m in mk if C.kwarg(m.value, 'json_formatter')
+                is not None and prog.dotted(
+                    fw.module, C.kwarg(m.value, 'json_formatter'), fw) ==
+                'placement.util.json_error_formatter']
         okf = body_call and catches and len(rets) == 1 and \
             'generate_response' in src(rets[0]) and len(mk) == 1 and \
             len(fmt) == 1 and not c04.handler_swallows(fw, hs[0]) is False
@@ -325,10 +330,9 @@ def r175(ctx, R):
                     it.func, ast.Attribute):
                 it = it.func.value
             return it.id if isinstance(it, ast.Name) else None
-        oki = li is not None and iter_name(li) and derives(
-            iter_name(li), is_add_diff)
-        okd = ld is not None and iter_name(ld) and derives(
-            iter_name(ld), is_del_filter)
+        deps = C.Deps(f)
+        oki = li is not None and deps.reaches(li.iter, is_add_diff)
+        okd = ld is not None and deps.reaches(ld.iter, is_del_filter)
         okw = bool(oki and okd)
         why = 'insert over provided - existing: %s; delete over existing ' \
             'not provided: %s' % (bool(oki), bool(okd))
